@@ -13,6 +13,7 @@ structure IdxR where
   w1 : List Char
   text : List Char
   w2 : List Char
+  deriving DecidableEq, Repr
 
 inductive Tok where
   | chunk (cs : List Char)                                   -- operators, numbers, brackets, whitespace, newlines
@@ -23,6 +24,7 @@ inductive Tok where
   | func (n w : List Char)                                   -- name, whitespace; the `(` belongs to the next chunk
   | kw (k : List Char)
   | verb (c1 : Char) (body : List Char)                      -- `` ` c1 body ` ``
+  deriving DecidableEq, Repr
 
 def IdxR.render (i : IdxR) : List Char := '[' :: (i.w1 ++ (i.text ++ (i.w2 ++ [']'])))
 
